@@ -209,12 +209,34 @@ def match_known(v, known):
 # ------------------------------------------------------------------------------------------------
 # one model pipeline
 # ------------------------------------------------------------------------------------------------
+_OP_RE = re.compile(r'"op":"([^"]+)"')
+_EXP_RE = re.compile(r'"exp":"([^"]+)"')
+
+
 def sample_lines(src, dst, k, rng):
-    """Seeded sample (without replacement) of k lines; always keeps the longest behaviours' share."""
+    """Seeded sample (without replacement) of k behaviours, stratified by the last call of the behaviour
+    (operation name and the model's expected result) so that rare operations are not crowded out."""
     lines = open(src).read().splitlines()
     if k is not None and len(lines) > k:
-        idx = sorted(rng.sample(range(len(lines)), k))
-        lines = [lines[i] for i in idx]
+        strata = {}
+        for i, ln in enumerate(lines):
+            ops = _OP_RE.findall(ln)
+            exps = _EXP_RE.findall(ln)
+            key = (ops[-1] if ops else "", exps[-1] if exps else "", len(ops))
+            strata.setdefault(key, []).append(i)
+        for v in strata.values():
+            rng.shuffle(v)
+        keys = sorted(strata)
+        idx = []
+        while len(idx) < k:
+            progressed = False
+            for key in keys:
+                if strata[key] and len(idx) < k:
+                    idx.append(strata[key].pop())
+                    progressed = True
+            if not progressed:
+                break
+        lines = [lines[i] for i in sorted(idx)]
     open(dst, "w").write("\n".join(lines) + ("\n" if lines else ""))
     return len(lines)
 
